@@ -85,6 +85,8 @@ func (f *Future[T]) PipeTo(forwarders vivid.ActorRefs) error {
 	f.mu.Lock()
 	if f.closed.Load() {
 		f.mu.Unlock()
+		// closed 先于结果写入被置位：等待 done（结果写入之后才关闭）再读取 message/err，避免把尚未写入的零值结果转发出去
+		<-f.done
 		verifhook.Yield("fut.pipe.tell", f)
 		f.tellForwarders(forwarders, f.message, f.err)
 		return nil
